@@ -1595,6 +1595,9 @@ func (e *Exec) revealed(name string) bool {
 	if e.RevealAll {
 		return true
 	}
+	if e.extraReveal[name] {
+		return true
+	}
 	if e.Spec == nil {
 		return false
 	}
